@@ -1667,12 +1667,12 @@ impl RunningProgram {
         Ok(())
     }
 
-    pub fn name_status_y86(&self) -> &'static str {
+    pub fn name_status_y86(&self) -> String {
         let status = self.status_or_default(255);
         if (status as usize) < Y86_STATUSES.len() {
-            Y86_STATUSES[status as usize]
+            String::from(Y86_STATUSES[status as usize])
         } else {
-            "<unknown>"
+            format!("{} (Unknown)", status)
         }
     }
 
